@@ -29,7 +29,8 @@ from secsgem.gem.collection_event_capability import CollectionEventCapability  #
 
 logging.disable(logging.CRITICAL)
 
-WAIT = 8.0        # bound of every wait; running into it is a broken check (Stuck), never a pass
+WAIT = 90.0       # bound of every wait; every wait ends on a condition (reply arrived, event recorded, thread returned), so the bound is
+                  # only reached when something is wedged: a broken check (Stuck), never a pass and never an observation
 T3_LONG = 20.0    # reply timeout while a reply is going to come
 T3_SHORT = 0.02   # reply timeout for a probe the peer does not answer
 STATE_ATTRS = ["init", "control", "offline", "equipment_offline", "attempt_online", "host_offline", "online", "online_local", "online_remote"]
@@ -98,6 +99,7 @@ class Rig:
         TRIGGERED[id(self.h)] = []
         self.c = self.h.protocol._connection
         self.c.rig = self
+        self.h.protocol._linktest_timeout = 10 ** 6   # no Linktest.req in the middle of a (slow, loaded) run
         self.sys = 100
         self.pending: dict[int, queue.Queue] = {}
         self.lock = threading.Lock()
